@@ -65,6 +65,7 @@ var c02UnitNames = []string{
 	"eq", "or-expr", "and-expr", "not-expr", "group-or", "named-or", "raw-in", "empty-map", "zero-struct", "group-and-or",
 	"group-or-map-raw", "group-or-raw-eq", "group-or-struct-map",
 	"lt", "lte", "gt", "gte", "neq", "in-expr", "or-expr-single", "and-expr-single",
+	"group-rawor-and", "group-and-rawor",
 }
 
 func c02MakeUnit(kind int, db *gorm.DB, row *sqlRow, tag string) c02Unit {
@@ -143,6 +144,11 @@ func c02MakeUnit(kind int, db *gorm.DB, row *sqlRow, tag string) c02Unit {
 		return c02Unit{query: clause.Or(clause.Eq{Column: "a", Value: x}), exp: ax}
 	case "and-expr-single":
 		return c02Unit{query: clause.And(clause.Gt{Column: "b", Value: y}), exp: colCmp(row, "b", ">", y)}
+	case "group-rawor-and":
+		// a grouped unit whose AND-joined members are raw strings, one of them containing OR
+		return c02Unit{query: db.Where("a = ? "+symKW(tag+"_k", "OR")+" b = ?", x, y).Where("c = ?", z), exp: tvAnd(tvOr(ax, by), cz)}
+	case "group-and-rawor":
+		return c02Unit{query: db.Where("c = ?", z).Where("a = ? "+symKW(tag+"_k", "OR")+" b = ?", x, y), exp: tvAnd(cz, tvOr(ax, by))}
 	case "group-or-map-raw":
 		return c02Unit{query: db.Where(map[string]interface{}{"a": x}).Or("b = ?", y), exp: tvOr(ax, by)}
 	case "group-or-raw-eq":
